@@ -20,8 +20,11 @@ def sh(cmd, cwd=None, env=None, timeout=3600):
 
 
 def main():
-    pid = sys.argv[1]
-    ks = sys.argv[2:] or ["1", "2"]
+    args = [a for a in sys.argv[1:] if not a.startswith("--")]
+    mode = ([a for a in sys.argv[1:] if a.startswith("--")] or ["--all"])[0]   # --confirm-only | --check-only | --all
+    offset = int(os.environ.get("SEED_OFFSET", "0"))       # round 2 results are stored as <Cxx>-<k+offset>
+    pid = args[0]
+    ks = args[1:] or ["1", "2"]
     extra_checks = os.environ.get("EXTRA_CHECKS", "").split()
     wt = "/tmp/wt/" + pid
     out = os.path.join(wt, "_out")
@@ -37,22 +40,32 @@ def main():
         except Exception:
             pass
         res = {"property": pid, "k": k, "agent_meta": meta}
-        sh("git checkout -- localcider", cwd=wt)
-        rc, o = sh("git apply " + patch, cwd=wt)
-        res["applies"] = rc == 0
-        if rc != 0:
-            print(pid, k, "patch does not apply:", o[-300:])
+        cfile = os.path.join(out, "confirm%s.json" % k)
+        if mode == "--check-only":
+            c = json.load(open(cfile))
+            res.update(c)
+            rc1, rc2, confirmed = c["demo"]["with_mutation_rc"], c["demo"]["without_rc"], c["confirmed"]
+        else:
+          sh("git checkout -- localcider", cwd=wt)
+          rc, o = sh("git apply " + patch, cwd=wt)
+          res["applies"] = rc == 0
+          if rc != 0:
+              print(pid, k, "patch does not apply:", o[-300:])
+              continue
+          rc, o = sh("PYTHONPATH=%s /venv/bin/python -m pytest -q -p no:cacheprovider --timeout=900 --continue-on-collection-errors 2>&1 | tail -15" % wt, cwd=wt)
+          m = re.search(r"(\d+) failed, (\d+) passed", o)
+          failed = set(re.findall(r"FAILED \S+::(\w+)", o))
+          res["tests"] = {"failed": int(m.group(1)) if m else None, "passed": int(m.group(2)) if m else None, "same_failures": failed == BASE_FAIL}
+          rc1, o1 = sh("PYTHONPATH=%s /venv/bin/python %s" % (wt, demo), cwd=out, timeout=900)
+          sh("git checkout -- localcider", cwd=wt)
+          rc2, o2 = sh("PYTHONPATH=%s /venv/bin/python %s" % (wt, demo), cwd=out, timeout=900)
+          res["demo"] = {"with_mutation_rc": rc1, "without_rc": rc2}
+          confirmed = res["tests"]["passed"] == 42 and res["tests"]["same_failures"] and rc1 != 0 and rc2 == 0
+          res["confirmed"] = confirmed
+          json.dump({k2: res[k2] for k2 in ("applies", "tests", "demo", "confirmed")}, open(cfile, "w"))
+        if mode == "--confirm-only":
+            print(pid, k, "confirmed" if confirmed else "NOT-CONFIRMED %r %r" % (res["tests"], res["demo"]))
             continue
-        rc, o = sh("PYTHONPATH=%s /venv/bin/python -m pytest -q -p no:cacheprovider --timeout=900 --continue-on-collection-errors 2>&1 | tail -15" % wt, cwd=wt)
-        m = re.search(r"(\d+) failed, (\d+) passed", o)
-        failed = set(re.findall(r"FAILED \S+::(\w+)", o))
-        res["tests"] = {"failed": int(m.group(1)) if m else None, "passed": int(m.group(2)) if m else None, "same_failures": failed == BASE_FAIL}
-        rc1, o1 = sh("PYTHONPATH=%s /venv/bin/python %s" % (wt, demo), cwd=out, timeout=900)
-        sh("git checkout -- localcider", cwd=wt)
-        rc2, o2 = sh("PYTHONPATH=%s /venv/bin/python %s" % (wt, demo), cwd=out, timeout=900)
-        res["demo"] = {"with_mutation_rc": rc1, "without_rc": rc2}
-        confirmed = res["tests"]["passed"] == 42 and res["tests"]["same_failures"] and rc1 != 0 and rc2 == 0
-        res["confirmed"] = confirmed
         # run my checks
         rc, _ = sh("git -C /repo diff --quiet")
         if rc != 0:
@@ -77,7 +90,7 @@ def main():
         else:
             det["apply_to_repo"] = o[-300:]
         res["checks"] = det
-        d = os.path.join(VERIF, "seeded", "%s-%s" % (pid, k))
+        d = os.path.join(VERIF, "seeded", "%s-%d" % (pid, int(k) + offset))
         os.makedirs(d, exist_ok=True)
         shutil.copy(patch, os.path.join(d, "patch.diff"))
         shutil.copy(demo, os.path.join(d, "demo.py"))
